@@ -14,11 +14,28 @@ TYPEBIT_OPT = {"str": 128, "bool": 256, "int": 512, "float": 1024}
 TYPEBIT_ARG = {"str": 16, "bool": 32, "int": 64, "float": 128}
 
 
+# name characters for the random direction: ASCII plus letters that are "letters" to str.isalpha() / case folding but not to
+# the documented [A-Za-z0-9-] (shipped to TLC as opaque stand-in symbols)
+UNI = {"\u0130": "<U0130>", "\u0131": "<U0131>", "\u017f": "<U017F>", "\u212a": "<U212A>", "\u00e9": "<U00E9>", "\u00df": "<U00DF>",
+       "\u03a9": "<U03A9>", "\u0661": "<U0661>", "\uff21": "<UFF21>"}
+NAME_CHARS = list("aZ1-_ aZ1-") + list(UNI)
+
+
+_UNINV = {v: k for k, v in UNI.items()}
+
+
+def name_chars(name):
+    return [UNI.get(c, c) for c in name]
+
+
 def base_event(part):
     return {"part": part, "kind": "opt", "flags": 0, "hasShort": False, "dflt": "none", "role": "long", "name": [],
             "nonStr": False, "type": "str", "nullable": False, "isNone": False, "text": [], "hasF": False, "fnum": 0,
             "fden": 1, "obs": {"accepted": False, "cls": "", "nflags": 0, "dkind": "none", "preds": dict(NOPREDS),
                                "res": dict(NORES)}}
+
+
+_FALSY = [0, "", False, 0.0]
 
 
 def dkind_of(v):
@@ -30,7 +47,7 @@ def observe_ctor(kind, flags, has_short, dflt):
 
     ev = base_event("ctor")
     ev.update(kind=kind, flags=flags, hasShort=has_short, dflt=dflt)
-    default = {"none": None, "scalar": "x", "list": ["x"]}[dflt]
+    default = {"none": None, "scalar": "x", "list": ["x"], "falsy": _FALSY[(flags + has_short) % len(_FALSY)], "emptylist": []}[dflt]
     short = "o" if has_short else None
     try:
         if kind == "opt":
@@ -57,7 +74,7 @@ def observe_name(role, name, non_str, cls_name):
     from clikit.api.args.format import Argument, CommandOption, Option
 
     ev = base_event("name")
-    ev.update(role=role, name=list(name) if not non_str else [], nonStr=non_str)
+    ev.update(role=role, name=name_chars(name) if not non_str else [], nonStr=non_str)
     val = 1234 if non_str else name
     try:
         if role == "long":
@@ -171,10 +188,10 @@ def run(ctx):
 
     r = ctx.model(SPEC, "MC_Pure", "MC_Pure_names.cfg", name="names-exhaustive")
     recs = T.emitted(r)
-    if len(recs) < 10000:
+    if len(recs) < 20000:
         raise T.MachineryError("names model emitted %d" % len(recs))
     for m in recs:
-        name = "".join(m["name"])
+        name = "".join(_UNINV.get(c, c) for c in m["name"])
         for cls_name in ("Option", "CommandOption") if m["role"] != "arg" else ("Argument",):
             ev = observe_name(m["role"], name, False, cls_name)
             ok = ev["obs"]["accepted"] == m["ok"] and (m["ok"] or ev["obs"]["cls"] == "ValueError")
@@ -234,7 +251,7 @@ def run(ctx):
             case = {"part": "conv", "type": ty, "nullable": ev["nullable"], "isNone": is_none, "text": "" if is_none else text, "via": via}
         else:  # longer names
             role = rng.choice(["long", "short", "arg"])
-            name = rng.choice(["", "-", "--"]) + "".join(rng.choice("aZ1-_ ") for _ in range(rng.randint(0, 9)))
+            name = rng.choice(["", "-", "--"]) + "".join(rng.choice(NAME_CHARS) for _ in range(rng.randint(0, 9)))
             non_str = rng.random() < 0.05
             cls_name = "Argument" if role == "arg" else rng.choice(["Option", "CommandOption"])
             ev = observe_name(role, name, non_str, cls_name)
